@@ -165,7 +165,7 @@ def rand_port(rng, allow_multi):
         a = rng.choice([1, 80, 1024, rng.randint(1, 65000)])
         return [op, sorted([a, min(65535, a + rng.choice([0, 1, 10, 1000, 60000]))])]
     n = rng.randint(1, 4) if allow_multi else 1
-    return [op, sorted(rng.sample([1, 22, 80, 443, 1024, 65535, rng.randint(1, 65535), rng.randint(1, 65535)], n))]
+    return [op, sorted(rng.sample([1, 22, 80, 443, 1024, 65535, 135, 15001, 521, 514, rng.randint(1, 65535), rng.randint(1, 65535)], n))]
 
 
 def near_port(rng, p, allow_multi):
